@@ -56,6 +56,9 @@ class Run:
     def violation(self, family, instance, key, where, what, detail=None):
         """key must not contain line numbers."""
         full_key = "%s/%s/%s/%s" % (self.prop, family, instance, key)
+        for old in self.findings:
+            if old.key == full_key:
+                return old
         f = Finding(self.prop, family, instance, full_key, where, what, detail)
         self.findings.append(f)
         self.obligations += 1
@@ -117,7 +120,7 @@ def finish(run, level, explanation, trusted_base, assumptions, extra_cov=None, c
                        "violations": [f.to_json() for f in viol]}, fh, indent=1)
         print("VIOLATION property=%s replay=%s" % (run.prop, rp))
         code = 1
-    if write_evidence:
+    if write_evidence and not os.environ.get("FRX_REPO"):
         cov = {
             "explanation": explanation,
             "obligations": run.obligations,
